@@ -8,7 +8,7 @@ HDR = ("From Coq Require Import ZArith List.\nFrom BT Require Import Model.CaseU
        "Import ListNotations.\nOpen Scope Z_scope.\n")
 
 BT_KINDS = ["Set", "TreeSet", "Bucket", "BTree"]
-ITER_KINDS = ["list", "tuple", "gen", "dictkeys"]
+ITER_KINDS = ["list", "tuple", "gen", "dictkeys", "keysview", "valuesview"]
 
 
 class Env:
@@ -53,6 +53,22 @@ class Env:
             return (k for k in keys)
         if kind == "dictkeys":
             return dict.fromkeys(keys).keys()
+        if kind == "keysview":
+            # the lazy keys() sequence of a tree (sorted, duplicate-free)
+            t = self.f.cls("BTree", self.impl)([(k, self.val(0)) for k in keys])
+            self._keep = t
+            return t.keys()
+        if kind == "valuesview":
+            # the lazy values() sequence of a tree whose VALUES are the wanted elements: unsorted, with repeats
+            # (only where the value type can hold a key; otherwise a plain list)
+            if self.f.vk == "O" or self.f.vk == self.f.kk:
+                try:
+                    t = self.f.cls("BTree", self.impl)([(self.km.k(i), k) for i, k in enumerate(keys)])
+                    self._keep = t
+                    return t.values()
+                except TypeError:
+                    return list(keys)
+            return list(keys)
         raise ValueError(kind)
 
     def snapshot(self, spec, obj):
